@@ -201,13 +201,13 @@ func TestC15(t *testing.T) {
 
 	// (5) IPv4 headers completed by SetPayload / AppendPayload verify
 	type ip4Case struct {
-		TTL      byte    `json:"ttl"`
-		Src      string  `json:"src"`
-		Dst      string  `json:"dst"`
-		Proto    byte    `json:"proto"`
-		Payload  drv.Hex `json:"payload"`
-		Append   bool    `json:"append"`
-		Junk     byte    `json:"junk"` // pre-existing buffer content
+		TTL     byte    `json:"ttl"`
+		Src     string  `json:"src"`
+		Dst     string  `json:"dst"`
+		Proto   byte    `json:"proto"`
+		Payload drv.Hex `json:"payload"`
+		Append  bool    `json:"append"`
+		Junk    byte    `json:"junk"` // pre-existing buffer content
 		// the same header completed again (new length / protocol), as when a buffer is re-used for the next packet
 		Again []struct {
 			Len    int  `json:"len"`
